@@ -266,5 +266,5 @@ def run(rc):
 
 
 def replay(data):
-    print(data)
-    return 1
+    from ..replay import replay_grammar_case
+    return replay_grammar_case(data)
